@@ -88,6 +88,11 @@ theorem C07_same_id (proto : Proto) (rid : Int) (oids : List Oid) (oid : Oid) (v
     ((bulkget proto scalars reps maxList).request rid).requestId = rid := by
   simp [multiget, Ops.get, multigetnext, getnext, multiset, Ops.set, bulkget, bulkVarbinds]
 
+/-- The id test is the one in the source: `validate_response_id` (translated from the working tree
+    on every run, `Gen.responseIdRefused`) raises exactly when the two ids differ. -/
+theorem C07_id_rule (rid respId : Int) : Gen.responseIdRefused rid respId = true ↔ respId ≠ rid := by
+  simp [Gen.responseIdRefused]
+
 /-- A response whose id differs from the request's never yields a result: when the wrapper
     checks pass and no error-status is set the call raises `InvalidResponseId`. -/
 theorem C07_mismatch (proto : Proto) (rid : Int) (m : RespMsg)
